@@ -7,7 +7,7 @@ package ring
 //@ # Interface contract of DoBatchRing.Get (proved for Ring.Get under C01 where claimed; assumed for other implementations):
 //@ # a successful lookup returns at least one instance.
 //@ assume func DoBatchRing.Get
-//@   ensures r1 == nil ==> len(r0.Instances) >= 1
+//@   ensures r1 == nil ==> len(r0.Instances) >= 1 && len(r0.Instances) < 2147483648
 //@
 //@ assume func DoBatchRing.InstancesCount
 //@   pure
@@ -26,6 +26,9 @@ package ring
 //@   at before@o.Go: spawned := true
 //@   # progress: when the function reaches the wait, at least one replica call exists (otherwise neither done nor err can ever be signalled)
 //@   at before@o.Go: assert len(instances) > 0 && len(itemTrackers) > 0
+//@   # the per-key bookkeeping handed to the tracker: the countdown of outstanding replica calls starts at the number of
+//@   # instances the key is sent to, the success threshold and the per-family failure tolerance come from the replica set
+//@   at before@atomic.Int32.Store#0: assert countdown: $a0 == len(replicationSet.Instances) && itemTrackers[i].minSuccess == len(replicationSet.Instances) - replicationSet.MaxErrors && itemTrackers[i].maxFailures == replicationSet.MaxErrors
 //@   # early exits clean up exactly once and start no replica call
 //@   at exit: assert !spawned ==> cleanups == 1
 //@   at exit: assert spawned ==> cleanups == 0
